@@ -543,6 +543,49 @@ def check_subset(ctx, R="C08.subset"):
         ctx.finding(R, "src/scenic/syntax/translator.py", "prune switch", "pruning.prune is not called exclusively under `if usePruning`", qualname="constructScenarioFrom")
 
 
+def check_sources(ctx, R="C08.sources"):
+    ctx.rule(
+        R,
+        "pruning bounds come from hard requirements only: the call that infers distance / relative-heading relations from the condition "
+        "of a requirement-like statement is reached only when the statement is a `require` (not `terminate when`, `terminate simulation when`, "
+        "`record`, `require monitor`) with probability 1 -- a soft requirement or a termination condition does not have to hold in the "
+        "generated scene, so pruning with it removes scenes the program allows",
+    )
+    model = ctx.model
+    fn = model.func("scenic.core.requirements", "PendingRequirement.compile")
+    calls = [c for c in walk_local(fn) if isinstance(c, ast.Call) and (dotted(c.func) or "").endswith("inferRelationsFrom")]
+    if not calls:
+        raise AnalysisError("shape not recognised: PendingRequirement.compile no longer infers relations")
+    for c in calls:
+        conds = []
+        for t, p in lib.path_conditions(c, fn):
+            if p:
+                conds.extend(t.values if isinstance(t, ast.BoolOp) and isinstance(t.op, ast.And) else [t])
+        # follow a local flag to its definition
+        flat = []
+        for t in conds:
+            if isinstance(t, ast.Name):
+                v = lib.local_value(fn, t.id)
+                if v is not None:
+                    flat.extend(v.values if isinstance(v, ast.BoolOp) and isinstance(v.op, ast.And) else [v])
+                    continue
+            flat.append(t)
+        txt = [lib.role_text(fn, t) for t in flat]
+        hard_kind = any(x in (lib.role_text(None, "self.ty is RequirementType.require"), lib.role_text(None, "self.ty == RequirementType.require")) for x in txt)
+        hard_prob = any(x in (lib.role_text(None, "self.prob == 1"), lib.role_text(None, "self.prob >= 1"), lib.role_text(None, "not self.prob < 1")) for x in txt)
+        if hard_kind and hard_prob:
+            ctx.ok(R, c, "relations are inferred only from `require` statements with probability 1")
+        else:
+            miss = [w for w, ok_ in (("the statement is a `require`", hard_kind), ("its probability is 1", hard_prob)) if not ok_]
+            ctx.finding(
+                R,
+                c,
+                "relations inferred from non-binding statements",
+                f"PendingRequirement.compile calls `{norm_text(c, 60)}` under {txt or 'no condition'}, without checking that {' and that '.join(miss)}: `require[0.5] C`, `terminate when C` or `record C` then bound "
+                f"distances / relative headings for pruning as if C held in every scene, and scenes the program allows can no longer be generated",
+            )
+
+
 def _defs(fn, name, at):
     out = []
     for n in ast.walk(fn):
@@ -858,6 +901,7 @@ def check_none(ctx, R="C08.none"):
 
 
 def check(ctx):
+    check_sources(ctx)
     check_cmpops(ctx)
     check_polarity(ctx)
     check_subset(ctx)
